@@ -307,7 +307,8 @@ func (r *Run) Finish(t failer, level string, rule string, cov map[string]any, as
 	if r.Replay == "" {
 		b, _ := json.MarshalIndent(ev, "", " ")
 		os.MkdirAll(filepath.Join(r.Dir, "evidence"), 0o755)
-		if err := os.WriteFile(filepath.Join(r.Dir, "evidence", r.ID+".json"), b, 0o644); err != nil {
+		// VERIF_EVIDENCE_SUFFIX: an add-on run of the same property writes next to the main evidence file (merged by ./check)
+		if err := os.WriteFile(filepath.Join(r.Dir, "evidence", r.ID+os.Getenv("VERIF_EVIDENCE_SUFFIX")+".json"), b, 0o644); err != nil {
 			t.Errorf("writing evidence: %v", err)
 		}
 	}
